@@ -5,6 +5,7 @@
 //! (`Components::packages()`), reception = `FlowControlledDataStreams` + flow-control frames
 //! (`space/data.rs`), feedback = `AckDataSpace::recv_frame` / `DataTracker::may_loss`.
 pub mod byz;
+pub mod dgram;
 pub mod endpoint;
 
 use std::collections::BTreeMap;
